@@ -1,0 +1,13 @@
+//go:build verif
+
+package lnd
+
+import (
+	"github.com/lightningnetwork/lnd/lnrpc"
+	"github.com/lightningnetwork/lnd/lnrpc/routerrpc"
+)
+
+// VerifBuildDirectClaimPaymentRequest exposes buildDirectClaimPaymentRequest to the verification harness.
+func VerifBuildDirectClaimPaymentRequest(payreq string, decoded *lnrpc.PayReq, channel *lnrpc.Channel, maxTotalCLTVDelta uint32) (*routerrpc.SendPaymentRequest, error) {
+	return buildDirectClaimPaymentRequest(payreq, decoded, channel, maxTotalCLTVDelta)
+}
